@@ -218,6 +218,21 @@ pub fn cells(ctx: &Ctx) -> Vec<Cell> {
             v.push(random_cell(fam, Ft::F32, &mut r));
         }
     }
+    // scale lattice at location 0 / min 0: an absolute tolerance or constant hidden in a sampler shows up when the
+    // whole law is scaled far from 1 (the bound itself is scale-invariant there)
+    for &sc in &[1e-6, 1e-4, 1e-3, 1e-2, 0.1, 10.0, 1e3, 1e6] {
+        v.push(Cell::new(Fam::Cauchy, Ft::F32, &[0.0, sc]));
+        v.push(Cell::new(Fam::Gumbel, Ft::F32, &[0.0, sc]));
+        for &sh in &[0.5, 2.0, 7.0] {
+            v.push(Cell::new(Fam::Pareto, Ft::F32, &[sc, sh]));
+            v.push(Cell::new(Fam::Weibull, Ft::F32, &[sc, sh]));
+            v.push(Cell::new(Fam::Frechet, Ft::F32, &[0.0, sc, sh]));
+        }
+        for &md in &[0.0, 0.3, 0.5, 1.0] {
+            v.push(Cell::new(Fam::Triangular, Ft::F32, &[0.0, sc, sc * md]));
+            v.push(Cell::new(Fam::Triangular, Ft::F32, &[-sc, sc, sc * (2.0 * md - 1.0)]));
+        }
+    }
     // cells of known finding C13-offset-cancellation (found by the thorough random cells): re-established on every run
     v.push(Cell::new(Fam::Frechet, Ft::F32, &[-7.220933532714844e1, 7.705432891845703e1, 7.609135437011719e1]));
     v.push(Cell::new(Fam::Frechet, Ft::F32, &[-4.883855895996094e2, 5.600755004882813e2, 2.7919662475585938e1]));
